@@ -68,6 +68,12 @@ def findSuite (suites : List Suite) (name : Str) : Option Suite :=
 def regSuite (reg : List (Str × Suite)) (name : Str) : Option Suite :=
   (reg.find? fun e => e.1 == name).map (·.2)
 
+/-- `ServiceFactory.Register(name, suite, …)` of a new name: appended to the list of constructors -/
+def regAdd (reg : List (Str × Suite)) (name : Str) (S : Suite) : List (Str × Suite) := reg ++ [(name, S)]
+
+/-- `ServiceFactory.Unregister(name)`: the first entry with that name is cut out of the list -/
+def regDel (reg : List (Str × Suite)) (name : Str) : List (Str × Suite) := reg.eraseP fun e => e.1 == name
+
 /-- a key as written in the file plus whether kyber accepts its decoded bytes as a point -/
 structure Key where
   s  : Str
@@ -302,6 +308,7 @@ structure State where
   reg     : List (Str × Suite) := []
   servers : List ServerToml := []
   lastPriv : Option PrivCfg := none     -- what the last `private` op loaded
+  plain   : List Str := []              -- services registered without a suite by `regadd`
 
 def init : State := {}
 
@@ -370,6 +377,27 @@ def step (s : State) (toks : List String) : State × String :=
       | _ => none
     match (l.splitOn ",").mapM ent with
     | some r => ({ s with reg := r }, "ok")
+    | none => (s, "bad-op")
+  -- `regadd <name> <suite|->` / `regdel <name>`: onet.RegisterNewService[WithSuite] / UnregisterService
+  -- between two reads; a name can be registered once
+  | ["regadd", n, su] =>
+    match hx n with
+    | some n =>
+      if (s.reg.any fun e => e.1 == n) || s.plain.contains n then (s, "err") else
+      if su = "-" then ({ s with plain := s.plain ++ [n] }, "ok") else
+      match hx su with
+      | some su =>
+        match s.suites.find? (·.name == su) with
+        | some S => ({ s with reg := regAdd s.reg n S }, "ok")
+        | none => (s, "bad-op")
+      | none => (s, "bad-op")
+    | none => (s, "bad-op")
+  | ["regdel", n] =>
+    match hx n with
+    | some n =>
+      if s.reg.any fun e => e.1 == n then ({ s with reg := regDel s.reg n }, "ok")
+      else if s.plain.contains n then ({ s with plain := s.plain.erase n }, "ok")
+      else (s, "err")
     | none => (s, "bad-op")
   | ["text", t] =>
     match hx t with
